@@ -37,6 +37,12 @@ structure Conn where
   k : Nat
   deriving DecidableEq, Repr, Inhabited
 
+/-- Which consumer of the lookup. -/
+inductive ReqKind where
+  | http   -- `SendHTTPProxyRequest`
+  | cmd    -- `SendCommandToClient` → `sendCommandCrossNode`
+  deriving DecidableEq, Repr
+
 /-- `makeConnectionKey` (`tunnox:conn_state:<id>`) / `makeClientKey` (`tunnox:client_conn:<id>`). -/
 inductive Key where
   | conn (c : Conn)
@@ -239,6 +245,8 @@ structure St where
   -- the cloud side of the same question: `tunnox:runtime:client:state:<client>` ↦ (NodeID, ConnID, deadline),
   -- written by `client.Service` (a key family disjoint from the two of `connstate`, hence kept apart)
   rstore : FMap Nat (Nat × Conn × Nat) := FMap.empty
+  -- consumers in flight: (kind, node, client) ↦ did the node-local registry have a connection of the client
+  pendingReq : FMap (ReqKind × Nat × Nat) Bool := FMap.empty
 
 def NodeSt.addConn (n : NodeSt) (c : Conn) : NodeSt := { n with conns := add c n.conns, streams := c :: n.streams }
 def NodeSt.dropConn (n : NodeSt) (c : Conn) : NodeSt := { n with conns := rm c n.conns }
@@ -250,7 +258,7 @@ def NodeSt.addAuth (n : NodeSt) (c : Conn) : NodeSt := { n with ctrl := add c n.
 /-- After `onClose`: nothing registered any more, every stream closed (the stream table stays). -/
 def NodeSt.closed (n : NodeSt) : NodeSt := ⟨n.streams, [], [], [], n.conns ++ n.dead, FMap.empty⟩
 
-def St.init : St := ⟨0, FMap.empty, fun _ => NodeSt.empty, [], FMap.empty, FMap.empty⟩
+def St.init : St := ⟨0, FMap.empty, fun _ => NodeSt.empty, [], FMap.empty, FMap.empty, FMap.empty⟩
 
 def upd (f : Nat → NodeSt) (j : Nat) (n : NodeSt) : Nat → NodeSt := fun i => if i = j then n else f i
 
@@ -273,6 +281,11 @@ inductive Ev where
   -- `FindClientNode(x)` asked on node `j` is two storage round trips; other events may fall between them:
   | lookBegin (j x : Nat)              -- … the index read (`storage.Get(clientKey)`)
   | lookEnd (j x : Nat)                -- … the record read (`GetConnectionState`) and the answer
+  -- a CONSUMER of the lookup on node `j` (`SendHTTPProxyRequest`, `SendCommandToClient`, the DNS forwarders): first the
+  -- node-local registry (`GetControlConnectionByClientID`), later — other events may fall in between — `FindClientNode`
+  -- and the routing decision
+  | reqBegin (k : ReqKind) (j x : Nat)
+  | reqEnd (k : ReqKind) (j x : Nat)
   | tick (dt : Nat)
   deriving DecidableEq, Repr
 
@@ -379,6 +392,14 @@ def lookupAnswer (P : Params) (st : St) (j x : Nat) : Look :=
     | .badType => .badType
   | _ => .notFound
 
+/-- The consumers of the lookup only read: the registry first, the shared store later.  Whatever they conclude
+("state inconsistent" included) they write nothing. -/
+def requestBegin (st : St) (k : ReqKind) (j x : Nat) : St :=
+  { st with pendingReq := FMap.insert st.pendingReq (k, j, x) (FMap.lookup (st.nodes j).byClient x).isSome }
+
+def requestEnd (st : St) (k : ReqKind) (j x : Nat) : St :=
+  { st with pendingReq := FMap.erase st.pendingReq (k, j, x) }
+
 def stepCore (P : Params) (st : St) : Ev → St
   | .open c => createConnection st c
   | .hs c ok => handleHandshake P st c true ok
@@ -392,6 +413,8 @@ def stepCore (P : Params) (st : St) : Ev → St
   | .shutdown n => shutdownNode st n
   | .lookBegin j x => lookupBegin st j x
   | .lookEnd j x => lookupEnd st j x
+  | .reqBegin k j x => requestBegin st k j x
+  | .reqEnd k j x => requestEnd st k j x
   | .tick dt => { st with now := st.now + dt }
 
 /-! ## The cloud runtime state (`internal/cloud/services/client/state.go`, `repos/client_state_repository.go`)
@@ -461,6 +484,11 @@ def stepOk (st : St) : Ev → Bool
       | some e => (match e.val with | .info i => decide (st.now ≤ i.expiresAt) | .id _ => false)
       | none => false
     | _ => false
+  -- the consumer in flight returned without error iff it sent on the node's own connection (and the node is up)
+  | .reqEnd k j x =>
+    match FMap.lookup st.pendingReq (k, j, x) with
+    | some true => decide (j ∉ st.down)
+    | _ => false
   | _ => true
 
 /-! ## Observation -/
@@ -485,6 +513,15 @@ def routeUp (P : Params) (st : St) (j x : Nat) : Route :=
 /-- … and the observation of it: a node that was shut down is not asked. -/
 def route (P : Params) (st : St) (j x : Nat) : Route :=
   if j ∈ st.down then .down else routeUp P st j x
+
+/-- Decision of the consumer in flight when it ends now: the registry as read EARLIER, the store as it is NOW. -/
+def requestOutcome (P : Params) (st : St) (k : ReqKind) (j x : Nat) : Route :=
+  match FMap.lookup st.pendingReq (k, j, x) with
+  | some true => .loc
+  | _ =>
+    match findClientNode P st.now st.store x with
+    | .found n _ => if n = j then .incons else .cross n
+    | _ => .none_
 
 /-- What every node sees for client `x`: (`FindClientNode`, routing decision, runtime state) per node `0 … nn-1`. -/
 def view (P : Params) (nn : Nat) (st : St) (x : Nat) : List (Look × Route × Option (Nat × Conn)) :=
